@@ -10,6 +10,16 @@ NOTE = ("Trusted: Coq 8.16.1 kernel (no axioms: every property theorem prints 'C
         "The theorems are about the hand-written Gallina model; the model is tied to /repo on every run by the table "
         "translator and by the differential correspondence run, which bounds what has been exercised.")
 CLAIMED = {
+    "C04": dict(
+        text="15 theorems: the GENERATED escape table of scanner.rs agrees pair by pair, in both directions, with an independently written "
+             "table of YAML 1.2 named escapes (an edited match arm breaks the proof on the next run); hex digit values and read_hex for "
+             "every digit list; \\x/\\u/\\U of every Unicode scalar value decode to it, other values are rejected; the character loop of "
+             "quoted scalars returns exactly the text for ALL words (both quote styles, '' -> ', any sequence of literal/named/numeric "
+             "escapes); whole scan_flow_scalar for ALL single-line escape-free texts with blanks anywhere, from any state. Multi-line "
+             "folding and plain scalars are not theorems (C04_quoted_full open; C04_plain_full machine-REFUTED by the recorded findings). "
+             "Tie/oracle: target strings x independent presenters (escapes, folds, padding) x 18 syntactic contexts on two back-ends, model "
+             "pipeline vs implementation. Known findings: indented '---'/'...' inside a plain scalar; ' -' before a flow indicator.",
+        ref="DESIGN.md 5/C04", tech="Rocq proof (escape table agreement via generated table; hex decoding; quoted-scalar loops, all texts) + presenter-based round-trip oracle + differential correspondence; folding/plain partial"),
     "C11": dict(
         text="8 theorems (partial by nature: bytes of stack are not expressible in a model): the pull parser's continuation stack tracks the "
              "number of open collections for EVERY token stream (heap, not call stack); the recursion depth of the push loader model and of "
@@ -86,16 +96,19 @@ CLAIMED = {
              "captures the real write_* call sequences and lookup results on 4 node types and compares them literally with the extracted model.",
         ref="DESIGN.md 5/C20", tech="Rocq proof (eq => equal hash stream; lookup agreement, all mappings) + recording-hasher correspondence + oracle on implementation"),
     "C01": dict(
-        text="Theorems C01_parser_never_panics / C01_step_never_panics: the pull parser model never panics for ANY token stream "
-             "(consequence of the C02 stack invariant). The scanner families (lookahead discipline, queue invariants, termination) "
-             "are not yet theorems: the model's explicit Panic/OutOfFuel outcomes act as monitors on every input of the correspondence "
-             "run (str, buf16, buf8 instances), and the implementation is run on 6 input back-ends x {iterator, push, peek/next, 4 "
-             "loaders} with panic capture, crash detection and input-call counting (linear-work bound 64n+4096).",
+        text="Theorems: the pull parser model never panics for ANY token stream (C02 stack invariant); C01_scanner_never_panics_buffered / "
+             "C01_pipeline_never_panics_buffered: the WHOLE scanner+parser model over a buffered input of ANY capacity >= 8 never panics "
+             "for ANY input (every lookahead-contract site and every skeleton panic site of the ~70 scanner functions, proved with a WP "
+             "calculus and the skeleton invariant SInv). Termination with linear fuel is not yet a theorem: the model's OutOfFuel "
+             "outcome is a monitor on every input of the correspondence run (str, buf16, buf8 instances); the implementation is run on 6 "
+             "input back-ends x {iterator, push, peek/next, 4 loaders} with panic capture, crash detection and input-call counting "
+             "(bound 64n+4096). Known finding shared with C11: deep block nesting overflows the stack in push/load.",
         ref="DESIGN.md 5/C01", tech="Rocq proof (parser layer: never panics, all token streams) + model monitors + differential correspondence; scanner families partial"),
     "C10": dict(
         text="Theorems C10_peek_nth / C10_skip: per-operation refinement between the buffered input model of any capacity and the "
-             "string input model under the buffer relation Rel (peek within the buffer, skip). Whole-scanner simulation is not yet a "
-             "theorem: the model's str / buf8 / buf16 / buf64 instances are run on every input and must agree with each other and with the "
+             "string input model under the buffer relation Rel; C10_lookahead_discipline: for every capacity >= 8 and every input the "
+             "scanner never violates the input contract (so every contract-honouring input is usable). Value-level whole-scanner "
+             "simulation (same events on both back-ends) is not yet a theorem: the model's str / buf8 / buf16 / buf64 instances are run on every input and must agree with each other and with the "
              "implementation; implementation vs implementation on StrInput, BufferedInput and contract-checking inputs of capacity "
              "8/16/64/128: identical events, spans, error message and position.",
         ref="DESIGN.md 5/C10", tech="Rocq proof (per-operation input refinement) + differential correspondence across back-ends; whole-scanner simulation partial"),
